@@ -20,8 +20,10 @@ RULE = ("base = (corpus method, tick k) of a real Engine on the virtual clock; r
         "one-preemption schedules are enumerated: tick thread preempted at its i-th yield point (PY_START/PY_RESUME/"
         "PY_THROW of Engine, MethodManager, CommandManager, PInterpreter, Tracking code), request runs to completion (or "
         "until it blocks on engine._lock), tick resumes. On top: two-preemption schedules (request itself preempted at "
-        "its j-th yield point; all j in the thorough tier, a seeded sample in the quick tier) and seeded two-request "
-        "schedules (3 threads). Each schedule is a fresh engine run continued single-threaded to quiescence. "
+        "its j-th yield point; all j (at most 40 per i) on the hand-written bases in the thorough tier, a seeded sample "
+        "otherwise) and seeded two-request schedules (3 threads; preemption points i1 <= i2 sampled). Each schedule is a "
+        "fresh engine run continued single-threaded to quiescence. Thorough adds 8 generated bases. Plus a serial "
+        "'no request lost' sub-check: accepted user command followed by set_method before the next tick. "
         "distinct case = (base, k, request kind, i, j); non-trivial = the tick thread really was preempted before it "
         "finished and the request ran (or blocked) in between")
 ASSUMPTIONS = [
@@ -336,7 +338,7 @@ def _diff(a, b):
 def overlap_info(sched, names):
     """For each request thread: did it run unlocked while the tick thread was inside the region protected by
     engine._lock?  True iff the thread never acquired the lock and (one of its yield points was executed while T1 owned
-    the lock, or a yield point of T1 executed under the lock lies between its first and its last yield point)."""
+    the lock, or a yield point of T1 executed under the lock lies between its first yield point and its return)."""
     out = {}
     ev = sched.events
     for th in names:
@@ -346,8 +348,8 @@ def overlap_info(sched, names):
         if not mine or th in sched.lock.acquired_by:
             out[th] = False
             continue
-        s0, s1 = mine[0][0], mine[-1][0]
-        out[th] = any(e[4] == "T1" for e in mine) or any(e[1] == "T1" and e[4] == "T1" and s0 < e[0] < s1 for e in ev)
+        s0, s1 = mine[0][0], sched.finish_step.get(th, mine[-1][0])
+        out[th] = any(e[4] == "T1" for e in mine) or any(e[1] == "T1" and e[4] == "T1" and s0 < e[0] <= s1 for e in ev)
     return out
 
 
